@@ -55,6 +55,20 @@ def run_check(pid, tier, seed):
         results = [None] * len(tasks)
         for pos, i in enumerate(order):
             results[i] = rres[pos]
+        # a watchdog timeout (or a worker lost under load) is only believed
+        # after it reproduces on an otherwise idle re-run with a longer limit
+        again = [i for i, r in enumerate(results)
+                 if isinstance(r, dict) and r.get("_error") in ("timeout",
+                                                                "crash")]
+        if again and len(again) <= 64:
+            print(f"[{pid}] re-running {len(again)} timed-out task(s) alone",
+                  file=sys.stderr, flush=True)
+            r2 = pool.run_tasks(chk.HANDLER, [tasks[i] for i in again],
+                                timeout=3 * getattr(chk, "TIMEOUT", 120.0),
+                                seed_of=getattr(chk, "seed_of", None),
+                                nworkers=2)
+            for i, r in zip(again, r2):
+                results[i] = r
         # harness errors
         herr = [(t, r) for t, r in zip(tasks, results)
                 if r is None or (isinstance(r, dict) and r.get("_error")
